@@ -10,26 +10,55 @@ def panic_sites(body, skip_macros=()):
     """list of dicts(kind, what, key, sp, mac, obj) for the non-cleanup blocks of `body`"""
     out = []
     counts = {}
-    def add(kind, what, obj):
+    from .cfg import DefUse, Slice
+    du = DefUse(body); sl = Slice(body, du)
+    def describe(op):
+        """where the value a may-panic construct consumes comes from: producing call(s) / field / argument / constant"""
+        if op is None: return "?"
+        if op.is_const: return "const"
+        parts = set()
+        pl = op.place
+        if pl.fields(): parts.add("field:" + pl.fields()[-1])
+        try: orig = sl.origins(op)
+        except Exception: orig = []
+        for k, o in orig:
+            if k == "call": parts.add("call:" + "::".join((o.callee.resolved or o.callee.path).replace("<", "").replace(">", "").split("::")[-2:])[:60])
+            elif k == "arg": parts.add("arg")
+            elif k == "const": parts.add("const")
+            elif k == "bin": parts.add("arith")
+        # fields read on the way (self.x.y.unwrap())
+        for l in [pl.l]:
+            for kk, d in du.value_defs(l):
+                if kk == "stmt" and d.kind == "assign":
+                    for q in ([d.rplace] if d.rplace is not None else []) + [x.place for x in d.ops if x.place is not None]:
+                        if q.fields(): parts.add("field:" + q.fields()[-1])
+        return "+".join(sorted(parts)) or "?"
+    def add(kind, what, obj, operand=None, operands=None):
         mac = getattr(obj, "mac", None)
         if mac and any(m in mac for m in skip_macros): return
         k = "%s:%s" % (kind, what)
         n = counts.get(k, 0); counts[k] = n + 1
-        out.append(dict(kind=kind, what=what, key="%s#%d" % (k, n), sp=obj.sp, mac=mac, obj=obj))
+        src = describe(operand) if operands is None else "|".join(describe(o) for o in operands)
+        out.append(dict(kind=kind, what=what, key="%s#%d" % (k, n), skey="%s<-%s" % (k, src), sp=obj.sp, mac=mac, obj=obj))
     for b in body.blocks:
         if b.cleanup: continue
         t = b.term
         if t.kind == "assert":
             # pointer alignment/null checks inserted by debug builds are not input-dependent
             if str(t.assert_kind) in ("other", "None") or "isaligned" in str(t.assert_kind) or "ull" in str(t.assert_kind)[:5]: continue
-            add("assert", str(t.assert_kind), t)
+            # the arithmetic that is checked: operands of the checked operation feeding the condition
+            ops = None
+            if t.cond is not None and t.cond.place is not None:
+                for kk, d in du.value_defs(t.cond.place.l):
+                    if kk == "stmt" and d.kind == "assign" and d.rv == "bin": ops = d.ops
+            add("assert", str(t.assert_kind), t, operands=ops or [])
         elif t.kind == "call" and not t.callee.indirect:
             c = t.callee
             p = c.resolved or c.path
             if c.name in UNWRAPS and ("Option" in p or "Result" in p):
-                add("unwrap", "%s::%s" % ("Option" if "Option" in p else "Result", c.name), t)
+                add("unwrap", "%s::%s" % ("Option" if "Option" in p else "Result", c.name), t, operand=t.args[0] if t.args else None)
             elif c.name in INDEXES and ("Index" in (c.trait or "") or "ops::Index" in p or "index::" in p):
-                add("index", short(p), t)
+                add("index", short(p), t, operands=t.args[:2])
             elif any(x in p for x in PANIC_FN_PARTS) or c.name in ("panic", "panic_fmt", "panic_display", "unreachable_display", "assert_failed", "panic_explicit", "begin_panic", "panic_nounwind"):
                 add("panic", c.name + ("[" + (t.mac or "") + "]" if t.mac else ""), t)
         elif t.kind == "call" and t.callee.indirect:
